@@ -210,7 +210,10 @@ where
                         .map_err(CodecError::DecompressFailure)?;
                 }
 
-                let batch = decode_message_batch(bytes)?;
+                let mut batch = decode_message_batch(bytes)?;
+                // Messages are popped off the end of the batch, so store it in reverse to
+                // yield them in the order they were published
+                batch.reverse();
                 self.message_batch = Some(batch);
                 self.poll_next(cx)
             }
